@@ -25,7 +25,8 @@ func init() {
 	fw.Register(&fw.Prop{
 		ID: "C17",
 		Rule: "case = timed run of 1-16 connections through one throttle handler (rate 1 KiB/s-10 MiB/s, burst {1,100,rate,64 KiB,default}, per-connection and/or total limiter, latency {0,50,300 ms}, " +
-			"reader buffer {1,512,32 KiB}, duration 0.4-2 s) with unlimited data ready at the client. The scripted client connection stamps the entry of the first underlying read (t0) and the return of " +
+			"reader buffer {1,512,32 KiB}, duration 0.4-2 s; in one run of five the handler is followed by a subroute whose matcher needs 100-8000 bytes under a 0.2-3 s matching timeout, so that the throttled " +
+			"connection is read by prefetch under a read deadline) with unlimited data ready at the client. The scripted client connection stamps the entry of the first underlying read (t0) and the return of " +
 			"every read (tau_i, cumulative bytes C_i). oracle (one-sided, sound under any load): with t0 = span entry + latency (no token can be taken earlier), C_i <= burst + rate*(tau_i - t0) + 1 per connection; for the total limiter the same on the merged " +
 			"stream of all connections; t0 - (span entry) >= latency; bytes the sink read are exactly the prefix of the client's stream that was pulled. non-trivial = >=3 reads observed; " +
 			"distinct = hash(all run parameters)",
@@ -59,6 +60,11 @@ type Run struct {
 	// Trickle: this many of the connections do not have unlimited data ready; they write one byte every 20 ms,
 	// so their reads return fewer bytes than the batch the limiters were asked for (short reads)
 	Trickle int `json:"trickle"`
+	// Matcher > 0: the throttle handler is followed by a subroute whose only route has a matcher that needs this many
+	// bytes, with MatchTimeoutMs as the subroute's matching timeout: the throttled connection is then read by the
+	// matching phase's prefetch, under a read deadline, before (if ever) the sink runs
+	Matcher        int `json:"matcher,omitempty"`
+	MatchTimeoutMs int `json:"match_timeout_ms,omitempty"`
 }
 
 // special runs that are always part of the list: both limiters with the total limiter binding, with and without
@@ -70,6 +76,11 @@ var specials = []*Run{
 	{Rate: 102400, Burst: 4096, TotalRate: 20480, TotalBurst: 1024, BufSize: 512, Conns: 4, Trickle: 2, DurationMs: 1200},
 	{Rate: 2000, Burst: 400, TotalRate: 0, TotalBurst: 0, BufSize: 32, Conns: 2, Trickle: 1, DurationMs: 900},
 	{Rate: 0, Burst: 0, TotalRate: 2000, TotalBurst: 400, BufSize: 32, Conns: 2, Trickle: 1, LatencyMs: 50, DurationMs: 1000},
+	// matching (prefetch under a read deadline) on the throttled connection: matching cannot finish in time ...
+	{Rate: 2000, Burst: 200, BufSize: 512, Conns: 2, DurationMs: 1500, Matcher: 4000, MatchTimeoutMs: 600},
+	{Rate: 0, TotalRate: 4000, TotalBurst: 300, BufSize: 512, Conns: 3, DurationMs: 1500, Matcher: 6000, MatchTimeoutMs: 500},
+	// ... and can
+	{Rate: 20000, Burst: 500, BufSize: 512, Conns: 2, DurationMs: 1200, Matcher: 3000, MatchTimeoutMs: 3000},
 }
 
 func genRun(seed int64, i int) *Run {
@@ -111,6 +122,10 @@ func genRun(seed int64, i int) *Run {
 	ru.DurationMs = 400 + r.Intn(1600)
 	if ru.Conns > 1 && r.Intn(3) == 0 {
 		ru.Trickle = 1 + r.Intn(ru.Conns-1)
+	}
+	if r.Intn(5) == 0 {
+		ru.Matcher = []int{100, 3000, 8000}[r.Intn(3)]
+		ru.MatchTimeoutMs = []int{200, 600, 3000}[r.Intn(3)]
 	}
 	return ru
 }
@@ -160,9 +175,15 @@ func execute(c *fw.Ctx, ru *Run) {
 	if ru.LatencyMs > 0 {
 		th["latency"] = fmt.Sprintf("%dms", ru.LatencyMs)
 	}
+	var last any = map[string]any{"handler": "verif_sink", "name": "sink", "bufsize": ru.BufSize}
+	if ru.Matcher > 0 {
+		// the matcher says yes once it has seen Matcher bytes (its verdict does not depend on them: at 0, != 256)
+		last = map[string]any{"handler": "subroute", "matching_timeout": fmt.Sprintf("%dms", ru.MatchTimeoutMs), "routes": []any{map[string]any{
+			"match":  []any{map[string]any{"verif_m1": map[string]any{"id": "after-throttle", "need": ru.Matcher, "at": 0, "eq": 256, "neg": true, "pattern": "peek"}}},
+			"handle": []any{last}}}}
+	}
 	routes := drive.J([]any{map[string]any{"handle": []any{
-		map[string]any{"handler": "verif_span", "name": "span"}, th,
-		map[string]any{"handler": "verif_sink", "name": "sink", "bufsize": ru.BufSize}}}})
+		map[string]any{"handler": "verif_span", "name": "span"}, th, last}}})
 	app, err := drive.StartApp(routes, "20s")
 	if err != nil {
 		c.Violation("C17 config rejected", err.Error(), ru)
@@ -288,7 +309,7 @@ func execute(c *fw.Ctx, ru *Run) {
 		pulled := int(cs.server.BytesRead.Load())
 		if len(got) > len(cs.stream) || !bytes.Equal(got, cs.stream[:len(got)]) {
 			report("stream-not-intact", "the sink read bytes that are not a prefix of the client's stream: "+oracle.Diff(got, cs.stream[:min(len(got), len(cs.stream))]), nil)
-		} else if len(got) != pulled {
+		} else if len(got) != pulled && !(ru.Matcher > 0 && len(got) == 0) { // (matching that fails drops what it had prefetched)
 			report("stream-lost-bytes", fmt.Sprintf("%d bytes were pulled from the client but the sink read %d", pulled, len(got)), nil)
 		}
 		hmods.Untrack(cs.id)
@@ -316,7 +337,7 @@ func execute(c *fw.Ctx, ru *Run) {
 	}
 	c.Obs("reads_observed", int64(reads))
 	c.Obs("runs", 1)
-	c.Case(fw.Hash(ru.Rate, ru.Burst, ru.TotalRate, ru.TotalBurst, ru.LatencyMs, ru.BufSize, ru.Conns, ru.Trickle), reads >= 3, func() any {
+	c.Case(fw.Hash(ru.Rate, ru.Burst, ru.TotalRate, ru.TotalBurst, ru.LatencyMs, ru.BufSize, ru.Conns, ru.Trickle, ru.Matcher, ru.MatchTimeoutMs), reads >= 3, func() any {
 		return map[string]any{"run": ru, "reads": reads}
 	})
 }
